@@ -114,7 +114,7 @@ public:
     if (positive_  & (value < 1 + bound_)) setValue(log(scale_ * (value - bound_)));
     if (positive_  & (value >= 1 + bound_)) setValue(scale_ * (value - 1. - bound_));
     if (!positive_ & (value > -1 + bound_)) setValue(log(-scale_ * (value - bound_)));
-    if (!positive_ & (value <= -1 + bound_)) setValue(-scale_ * (value - 1. - bound_));
+    if (!positive_ & (value <= -1 + bound_)) setValue(-scale_ * (value + 1. - bound_));
   }
 
   double getOriginalValue() const
@@ -123,7 +123,7 @@ public:
     if (positive_)
       if (x < 0) return exp(x) / scale_ + bound_;
       else return x / scale_ + 1. + bound_;
-    else if (x < 0) return -exp(-x) / scale_ + bound_;
+    else if (x < 0) return -exp(x) / scale_ + bound_;
     else return -x / scale_ - 1. + bound_;
   }
 
@@ -133,7 +133,7 @@ public:
     if (positive_)
       if (x < 0) return exp(x) / scale_;
       else return 1. / scale_;
-    else if (x < 0) return exp(-x) / scale_;
+    else if (x < 0) return -exp(x) / scale_;
     else return -1. / scale_;
   }
 
@@ -143,7 +143,7 @@ public:
     if (positive_)
       if (x < 0) return exp(x) / scale_;
       else return 0;
-    else if (x < 0) return -exp(-x) / scale_;
+    else if (x < 0) return -exp(x) / scale_;
     else return 0;
   }
 };
